@@ -1,4 +1,5 @@
 import MtailVerif.Proofs.Reader
+import MtailVerif.Proofs.ReaderBuf
 /-! # C15 — Line framing is independent of how bytes arrive -/
 namespace MtailVerif.C15
 open MtailVerif MtailVerif.Reader
@@ -27,5 +28,30 @@ theorem framing_any_two_chunkings (c1 c2 : List Bytes) (h : c1.flatten = c2.flat
 example : specLines [97, 13, 10, 10, 98, 13] = [[97], [], [98, 13]] := by decide
 /-- non-vacuity: a CRLF split across two reads -/
 example : delivered [[97, 13], [10, 98]] = [[97], [98]] := by decide
+
+
+/-- Obligation over regenerated facts: the slice expressions whose length/capacity arithmetic
+    `Model/ReaderBuf.lean` encodes are the ones in the source. -/
+theorem buffer_shape :
+    Generated.Reader.readOffer = "lr.buf[len(lr.buf):cap(lr.buf)]" ∧
+    Generated.Reader.dropConsumed = "lr.buf[lr.off:len(lr.buf)]" ∧
+    Generated.Reader.newBuf = "make([]byte, 0, size)" := by decide
+
+/-- Every `Read` of every history is handed room for at least `size` bytes — whatever the earlier
+    reads returned, however much of the buffer the send loop consumed (sent lines are sliced off
+    the *front* of the buffer and take their capacity with them), and whenever `Finish` cut in.  So
+    a reader never stops taking data in because its buffer has no room: a `Read` that returns 0
+    bytes does so because the source had none. -/
+theorem every_read_is_offered_room (size : Nat) (ops : List ReaderBuf.Op) :
+    ∀ n ∈ ReaderBuf.offers ReaderBuf.src size (ReaderBuf.new size) ops, size ≤ n :=
+  ReaderBuf.offers_ge size ops _ (by simp [ReaderBuf.Inv, ReaderBuf.new])
+
+/-- non-vacuity: a buffer of 4 filled to the brim by one read whose last byte ends a line has
+    neither length nor capacity left, and the next read is offered 4 again -/
+example : ReaderBuf.offers ReaderBuf.src 4 (ReaderBuf.new 4) [.read 4 4, .read 1 0, .finish, .read 9 2] = [4, 4, 4] := by decide
+/-- ... which is not a matter of course: regrowing to twice the *capacity* offers the second read
+    nothing, for ever -/
+example : ReaderBuf.offers ⟨Generated.Reader.needGrow, fun _ cap _ => 2 * cap⟩ 4 (ReaderBuf.new 4)
+    [.read 4 4, .read 1 0, .read 1 0] = [4, 0, 0] := by decide
 
 end MtailVerif.C15
